@@ -119,6 +119,22 @@ int main(int argc, char** argv) {
         population_json(o, "ref", ref);
         o.end_obj();
         fprintf(fo, "%s\n", o.text().c_str());
+    } else if (mode == "excstress") {
+        // thousands of items that ALL throw at once, several rounds: whatever the handler keeps of the exceptions it catches in
+        // parallel must survive being written by many threads at the same moment; every round must end with one of the thrown
+        // exceptions reaching the caller intact
+        omp_set_num_threads(threads);
+        const long n = S["n"].i(), rounds = S["rounds"].i();
+        long ok = 0;
+        std::vector<long> items(n); for (long i = 0; i < n; i++) items[i] = i;
+        std::function<void(long)> body = [&](long i) { throw mesh_integrity_exception("item " + std::to_string(i) + " of a long enough message to live on the heap"); };
+        for (long r = 0; r < rounds; r++) {
+            try { parallel_exception_handler(items, body); }
+            catch (mesh_integrity_exception& e) { const std::string w = e.what(); if (w.rfind("item ", 0) == 0 && w.find("to live on the heap") != std::string::npos) ok++; }
+            catch (...) {}
+        }
+        vj::out o; o.obj().key("e").str("stress").key("rounds").i(rounds).key("ok").i(ok).end_obj();
+        fprintf(fo, "%s\n", o.text().c_str());
     } else if (mode == "exc") {
         omp_set_num_threads(threads);
         const long n = S["n"].i();
